@@ -33,7 +33,49 @@ func (p *Prog) IsNewHelper(fn *ssa.Function) bool {
 	if top.Synthetic != "" && top.Name() != "init" {
 		return false
 	}
+	if p.adopted[top] {
+		return false
+	}
 	return !baselineFuncs[FuncName(top)]
+}
+
+// ResolveRole finds the callee of caller (directly, or through helpers outside
+// the vocabulary) that fits a role.  Vocabulary functions come first.  When the
+// function that had the role is gone and exactly one helper outside the
+// vocabulary that caller calls directly fits, that helper is its successor: it
+// is adopted into the vocabulary (kept opaque where the old function was, judged
+// where the old function was judged).
+func (p *Prog) ResolveRole(caller *ssa.Function, fits func(cal *ssa.Function) bool) *ssa.Function {
+	var voc *ssa.Function
+	eachInstrG(p, caller, func(_ *ssa.BasicBlock, in ssa.Instruction) {
+		if ci, ok := in.(ssa.CallInstruction); ok {
+			if cal := ci.Common().StaticCallee(); cal != nil && p.IsLibFunc(cal) && !p.IsNewHelper(cal) && fits(cal) {
+				voc = cal
+			}
+		}
+	})
+	if voc != nil {
+		return voc
+	}
+	cands := map[*ssa.Function]bool{}
+	eachInstr(caller, func(_ *ssa.BasicBlock, in ssa.Instruction) {
+		if ci, ok := in.(ssa.CallInstruction); ok {
+			if cal := ci.Common().StaticCallee(); cal != nil && p.IsLibFunc(cal) && p.IsNewHelper(cal) && fits(cal) {
+				cands[cal] = true
+			}
+		}
+	})
+	if len(cands) != 1 {
+		return nil
+	}
+	for cal := range cands {
+		if p.adopted == nil {
+			p.adopted = map[*ssa.Function]bool{}
+		}
+		p.adopted[cal] = true
+		return cal
+	}
+	return nil
 }
 
 // helperGroup returns the roots, their closures and every new helper reachable
